@@ -49,6 +49,9 @@ def check_index(w, idx):
         return ("post.sel", f"Signal(width={w})[{idx!r}] denotes {got}, Python selects {expect}")
     if not (0 <= inner.bot < inner.top <= w and all(inner.bot <= g < inner.top for g in got)):
         return ("post.inrange", f"Signal(width={w})[{idx!r}] has bounds [{inner.bot},{inner.top}) outside 0..{w}")
+    if abs(inner.step) == 1 and inner.top - inner.bot != inner.width:
+        return ("post.inrange", f"Signal(width={w})[{idx!r}]: unit step but top-bot = {inner.top - inner.bot} != width "
+                                f"{inner.width}")
     if sl.width != inner.width or sl.top != inner.top or sl.bot != inner.bot or sl.step != inner.step:
         return ("post.cached", f"Slice properties disagree with _slice_inner for {idx!r}")
     return None
